@@ -186,6 +186,13 @@ type WatchRec struct {
 	consumedPos             int  // collection-log position up to which the consumer has consumed (exclusive)
 	established             bool
 	erroredAt               int
+	onReturn                func() // called once the Watch* call has returned
+}
+
+// runWatcherNotify is runWatcher that closes ch as soon as the Watch* call has returned.
+func runWatcherNotify(ctx context.Context, env *watchEnv, rec *WatchRec, extraKind []state.WatchKindOption, extraSingle []state.WatchOption, ch chan struct{}) {
+	rec.onReturn = func() { close(ch) }
+	runWatcher(ctx, env, rec, extraKind, extraSingle)
 }
 
 func recOf(ev state.Event, batch int) EvRec {
@@ -264,6 +271,9 @@ func runWatcher(ctx context.Context, env *watchEnv, rec *WatchRec, extraKind []s
 	*env.ev++
 	rec.RetEv = *env.ev
 	rec.RetCommit = env.commits(spec.ns(), spec.Type)
+	if rec.onReturn != nil {
+		rec.onReturn()
+	}
 	if rec.Err != nil {
 		rec.Done = true
 		return
